@@ -17,7 +17,11 @@
 
 package topicmapper
 
-import "github.com/megaease/easegress/pkg/filters"
+import (
+	"fmt"
+
+	"github.com/megaease/easegress/pkg/filters"
+)
 
 type (
 	// Spec is spec of Kafka
@@ -56,3 +60,25 @@ type (
 		Exprs []string `yaml:"exprs" jsonschema:"required"`
 	}
 )
+
+// Validate verifies that the level indexes are not negative (the generated
+// JSON schema cannot express `minimum=0`).
+func (spec *Spec) Validate() error {
+	if spec.MatchIndex < 0 {
+		return fmt.Errorf("matchIndex must not be negative")
+	}
+	for _, p := range spec.Policies {
+		if p == nil {
+			continue
+		}
+		if p.TopicIndex < 0 {
+			return fmt.Errorf("policy %s: topicIndex must not be negative", p.Name)
+		}
+		for k := range p.Headers {
+			if k < 0 {
+				return fmt.Errorf("policy %s: header index must not be negative", p.Name)
+			}
+		}
+	}
+	return nil
+}
